@@ -69,7 +69,24 @@ def _entry(N, P, seed):
     return None
 
 
+def array_split(p):
+    """run-time validation of the external contract used for np.array_split: piece q of arange(N) cut into P pieces is
+    arange(lo(q), lo(q+1)) with lo(q) = q*(N//P) + min(q, N%P) (the closed form of utils.split_idx)"""
+    fails, cases = [], 0
+    for N in range(0, p.get("nmax", 48) + 1):
+        for P in range(1, p.get("pmax", 20) + 1):
+            parts = np.array_split(np.arange(N), P)
+            a, e = divmod(N, P)
+            lo = lambda q: q * a + min(q, e)
+            cases += 1
+            if len(parts) != P or any(list(parts[q]) != list(range(lo(q), lo(q + 1))) for q in range(P)):
+                fails.append({"N": N, "P": P, "error": "np.array_split(arange(%d), %d) is not the closed-form tiling" % (N, P)})
+    return {"cases": cases, "distinct": cases, "failures": fails[:3]}
+
+
 def main(p):
+    if p.get("mode") == "array_split":
+        return array_split(p)
     from spmd import run_spmd
     fails, cases = [], 0
     for (N, P) in p["NP"]:
